@@ -39,7 +39,19 @@ macro_rules! impl_request_handler {
 
             fn handle(&self, ctx: &mut LspContext, req: lsp_server::Request) -> MosResult<()> {
                 let method = RequestHandler::method(self);
-                let (id, params) = req.extract(method).unwrap();
+                let id = req.id;
+                // (not `req.extract`, which panics when the parameters cannot be deserialised)
+                let params = match serde_json::from_value(req.params) {
+                    Ok(params) => params,
+                    Err(e) => {
+                        // The client got the parameters wrong: that is worth an error, not our life
+                        return ctx.send_error_response(
+                            id,
+                            lsp_server::ErrorCode::InvalidParams,
+                            format!("invalid parameters for {}: {}", method, e),
+                        );
+                    }
+                };
                 let result = RequestHandler::handle(self, ctx, params)?;
                 ctx.send_response(id, result)?;
                 Ok(())
@@ -58,8 +70,15 @@ macro_rules! impl_notification_handler {
 
             fn handle(&self, ctx: &mut LspContext, req: lsp_server::Notification) -> MosResult<()> {
                 let method = NotificationHandler::method(self);
-                let params = req.extract(method).unwrap();
-                NotificationHandler::handle(self, ctx, params)
+                // (not `req.extract`, which panics when the parameters cannot be deserialised)
+                match serde_json::from_value(req.params) {
+                    Ok(params) => NotificationHandler::handle(self, ctx, params),
+                    Err(e) => {
+                        // There is nobody to tell: a notification has no answer
+                        log::warn!("ignoring {} with invalid parameters: {}", method, e);
+                        Ok(())
+                    }
+                }
             }
         }
     };
